@@ -179,4 +179,64 @@ pub(crate) mod __verif_prototk {
         }
         kani::cover!(len == 12);
     }
+
+    // "the bytes are the standard protocol-buffers wire encoding": the wire type each scalar field type
+    // announces in its tag is the one the protobuf encoding assigns to it (VARINT=0 for the int/sint/bool
+    // family, I64=1 for fixed64/sfixed64/double, LEN=2 for bytes/string/message, I32=5 for
+    // fixed32/sfixed32/float), and the fixed-width payload has exactly the announced width -- otherwise a
+    // reader skipping or decoding the field by its wire type mis-frames everything behind it.
+    //@ H kind=complete tier=quick timeout=600 oblig="prototk::field_types::WIRE_TYPE==protobuf-wire-type+payload-width"
+    #[kani::proof]
+    #[kani::unwind(12)]
+    fn field_types_announce_standard_wire_type() {
+        use crate::field_types::*;
+        assert!(<int32 as FieldType>::WIRE_TYPE == WireType::Varint);
+        assert!(<int64 as FieldType>::WIRE_TYPE == WireType::Varint);
+        assert!(<uint32 as FieldType>::WIRE_TYPE == WireType::Varint);
+        assert!(<uint64 as FieldType>::WIRE_TYPE == WireType::Varint);
+        assert!(<sint32 as FieldType>::WIRE_TYPE == WireType::Varint);
+        assert!(<sint64 as FieldType>::WIRE_TYPE == WireType::Varint);
+        assert!(<Bool as FieldType>::WIRE_TYPE == WireType::Varint);
+        assert!(<fixed64 as FieldType>::WIRE_TYPE == WireType::SixtyFour);
+        assert!(<sfixed64 as FieldType>::WIRE_TYPE == WireType::SixtyFour);
+        assert!(<double as FieldType>::WIRE_TYPE == WireType::SixtyFour);
+        assert!(<fixed32 as FieldType>::WIRE_TYPE == WireType::ThirtyTwo);
+        assert!(<sfixed32 as FieldType>::WIRE_TYPE == WireType::ThirtyTwo);
+        assert!(<float as FieldType>::WIRE_TYPE == WireType::ThirtyTwo);
+        assert!(<bytes as FieldType>::WIRE_TYPE == WireType::LengthDelimited);
+        assert!(<bytes16 as FieldType>::WIRE_TYPE == WireType::LengthDelimited);
+        assert!(<bytes32 as FieldType>::WIRE_TYPE == WireType::LengthDelimited);
+        assert!(<string as FieldType>::WIRE_TYPE == WireType::LengthDelimited);
+        // payload widths of the fixed-width families, for every value
+        assert!(fixed32(kani::any()).pack_sz() == 4 && sfixed32(kani::any()).pack_sz() == 4);
+        assert!(float(f32::from_bits(kani::any())).pack_sz() == 4);
+        assert!(fixed64(kani::any()).pack_sz() == 8 && sfixed64(kani::any()).pack_sz() == 8);
+        assert!(double(f64::from_bits(kani::any())).pack_sz() == 8);
+        kani::cover!(true);
+    }
+
+    // message<M>::unpack is total whenever M::unpack is: a nested decoder that leaves bytes of its
+    // length-delimited payload unconsumed (derived enums do) must yield an error or a value, never a panic.
+    pub struct LeavesRest(u8);
+    impl<'a> Unpackable<'a> for LeavesRest {
+        type Error = SError;
+        fn unpack<'b: 'a>(buf: &'b [u8]) -> Result<(Self, &'b [u8]), SError> {
+            if buf.is_empty() { Err(mk()) } else { Ok((LeavesRest(buf[0]), &buf[1..])) }
+        }
+    }
+    //@ H kind=bounded tier=quick timeout=900 bound="every byte string of length <= 6" oblig="prototk::field_types::message<M>::unpack::total"
+    #[kani::proof]
+    #[kani::unwind(12)]
+    #[kani::stub(buffertk::buffer_too_short, stub_2usize)]
+    #[kani::stub(buffertk::varint_overflow, stub_usize)]
+    #[kani::stub(crate::wrong_length, stub_2usize)]
+    fn nested_message_unpack_total() {
+        let data: [u8; 6] = kani::any();
+        let n: usize = kani::any(); kani::assume(n <= 6);
+        match <crate::field_types::message<LeavesRest> as Unpackable>::unpack(&data[..n]) {
+            Ok((m, rest)) => { assert!(rest.len() <= n); core::mem::forget(m); }
+            Err(e) => { core::mem::forget(e); }
+        }
+        kani::cover!(n == 6);
+    }
 }
